@@ -30,6 +30,7 @@ import (
 
 	"verifharness/dev"
 	"verifharness/hx"
+	"verifharness/indep"
 	"verifharness/mk"
 )
 
@@ -50,7 +51,7 @@ var c11Read = []string{"gettable", "getfs", "readpart", "verify", "readdir", "re
 
 func genC11(t *rapid.T) any {
 	c := c11Case{}
-	c.Img = rapid.SampledFrom([]string{"gpt", "gpt", "gpt-badprimary", "mbr", "fat12", "fat16", "iso9660", "squashfs"}).Draw(t, "img")
+	c.Img = rapid.SampledFrom([]string{"gpt", "gpt", "gpt-badprimary", "gpt-fatmismatch", "mbr", "fat12", "fat16", "iso9660", "squashfs"}).Draw(t, "img")
 	c.Route = rapid.SampledFrom([]string{"writable-fails", "file-new-ro", "file-new-osfile-ro", "open-ro", "frompath-ro", "rw-reads-only"}).Draw(t, "route")
 	if (c.Img == "iso9660" || c.Img == "squashfs") && rapid.IntRange(0, 2).Draw(t, "sameObject") == 0 {
 		// the filesystem object that was just finalized, not a re-opened one: it is read-only from then on
@@ -58,7 +59,7 @@ func genC11(t *rapid.T) any {
 	}
 	n := rapid.IntRange(3, 25).Draw(t, "nops")
 	for i := 0; i < n; i++ {
-		op := c11Op{Part: rapid.IntRange(1, 3).Draw(t, "part"), N: rapid.IntRange(0, 3).Draw(t, "variant")}
+		op := c11Op{Part: rapid.IntRange(1, 3).Draw(t, "part"), N: rapid.IntRange(0, 8).Draw(t, "variant")}
 		if c.Route == "rw-reads-only" || rapid.IntRange(0, 2).Draw(t, "readOrMut") == 0 {
 			op.K = rapid.SampledFrom(c11Read).Draw(t, "readOp")
 		} else {
@@ -228,10 +229,28 @@ func execC11(ci any) (r hx.Result) {
 	r.Class("img:" + c.Img)
 	r.Class("route:" + c.Route)
 	imgKey := c.Img
-	if c.Img == "gpt-badprimary" {
+	if c.Img == "gpt-badprimary" || c.Img == "gpt-fatmismatch" {
 		imgKey = "gpt"
 	}
 	im := c11Build(imgKey)
+	if im.err == nil && c.Img == "gpt-fatmismatch" {
+		// the second FAT copy of the FAT32 partition differs from the first in one entry (an update that was
+		// interrupted between the two copies): whatever a reader makes of that, it must not write
+		c11Mu.Lock()
+		bad := c11Images[c.Img]
+		if bad == nil {
+			bad = &c11Image{bytes: append([]byte(nil), im.bytes...), size: im.size, parts: im.parts}
+			pstart, psize := int64(1<<20), int64(8<<20)
+			rep := indep.CheckFAT(dev.FromBytes(im.bytes[pstart:pstart+psize], psize), 0, psize, "fat32")
+			if rep.FATSectors > 0 {
+				off := pstart + (int64(rep.Reserved)+int64(rep.FATSectors))*int64(rep.BytesPerSector) + 4*9
+				bad.bytes[off] ^= 0x55
+			}
+			c11Images[c.Img] = bad
+		}
+		c11Mu.Unlock()
+		im = bad
+	}
 	if im.err == nil && c.Img == "gpt-badprimary" {
 		// one damaged byte in the primary header (its CRC field): reading falls back to the backup copy,
 		// and must still not write anything - repairing is the caller's decision
@@ -506,8 +525,18 @@ func execC11(ci any) (r hx.Result) {
 				})
 			case "open-rw":
 				mustErr = finalized
+				// every way of asking for a handle that could change the file: on a finalized filesystem each one
+				// is an "OpenFile for write/create/append/truncate" and has to be refused, whatever the combination
+				flags := []int{os.O_RDWR, os.O_WRONLY, os.O_APPEND, os.O_RDWR | os.O_APPEND, os.O_WRONLY | os.O_APPEND}
+				if finalized {
+					flags = append(flags, os.O_TRUNC, os.O_CREATE, os.O_RDWR|os.O_CREATE|os.O_EXCL, os.O_WRONLY|os.O_TRUNC)
+				}
+				flag := flags[op.N%len(flags)]
+				if !finalized {
+					flag = flags[op.N%2*3] // O_RDWR or O_RDWR|O_APPEND: opening without changing anything may succeed
+				}
 				call(func() error {
-					f, e := fs.OpenFile(f2, os.O_RDWR)
+					f, e := fs.OpenFile(f2, flag)
 					if e == nil && f != nil {
 						f.Close()
 					}
